@@ -568,7 +568,7 @@ func runRoundTrip(c *ctx, i int) {
 	v := g.newValue(s)
 	if s.private {
 		// only decodable custom maps can be planted: colliding keys get a value of the registered claim's JSON type
-		for k := range v.custom {
+		for _, k := range sortedKeys(v.custom) { // sorted: a case is a pure function of (seed, part, index)
 			for j := range s.fields {
 				if foldEq(k, s.fields[j].name) {
 					v.custom[k] = g.compatibleValue(s.fields[j].kind)
